@@ -307,6 +307,17 @@ func childAPILoad(job *Job, res *Result) error {
 						body, _ = json.Marshal(map[string]interface{}{"jsonrpc": "2.0", "id": 1, "method": "get-global-rich-list",
 							"params": map[string]interface{}{"count": 10}})
 					}
+					if a == 1 {
+						// this one fires right after a block was committed: on a live network that is when
+						// the node idles and the first request for the new tip arrives
+						last, _ := rd.Committed()
+						for atomic.LoadInt32(&stop) == 0 {
+							if cm, err := rd.Committed(); err == nil && cm != last {
+								break
+							}
+							time.Sleep(200 * time.Microsecond)
+						}
+					}
 					c, err := net.DialTimeout("tcp", apiAddr, time.Second)
 					if err != nil {
 						time.Sleep(time.Millisecond)
@@ -322,7 +333,9 @@ func childAPILoad(job *Job, res *Result) error {
 					mu.Unlock()
 					// open loop: the handler of an aborted request still runs to its end, so the rate is
 					// kept low enough for the node to keep up (about 100 requests a second in all)
-					time.Sleep(time.Duration(10+rng.Intn(20)) * time.Millisecond)
+					if a != 1 {
+						time.Sleep(time.Duration(10+rng.Intn(20)) * time.Millisecond)
+					}
 				}
 			}(a)
 		}
